@@ -278,12 +278,42 @@ def rule_OP(run: Run) -> RuleResult:
                     n_iters += 1
                     bad = [astu.short_name(c) for c in astu.calls_in(it) if astu.short_name(c) in REORDER]
                     sl = [s for s in ast.walk(it) if isinstance(s, ast.Slice)]
+                    # a loop over all children that stops early visits only a prefix
+                    if isinstance(x, ast.For) and cls.name not in ("Coalesce", "CaseWhen") and mname != "__init__":
+                        for y in astu.walk_no_nested(x):
+                            if isinstance(y, ast.Break):
+                                bad.append("break")
+                    for c in astu.calls_in(it):
+                        if astu.short_name(c) in ("islice", "next", "first", "head"):
+                            bad.append(astu.short_name(c))
                     ok = not bad and not sl
                     res.add(f"{cls.qualname}.{mname}:iterates {hit[0]} in stored order", ok, cls.module.relpath if cls.find_method(mname)[0] is cls else cls.find_method(mname)[0].module.relpath, it.lineno,
                             txt[:80] + (f" — reordered by {bad or 'slice'}" if not ok else ""), nec)
     res.count("iterations", n_iters)
     if n_iters < 20:
         raise AnalysisError(f"R-OP found only {n_iters} iterations over child collections")
+    # collection constructors: Iter over the arguments in order, converted by the matching builtin
+    cm = repo.modules.get("labrea.collections")
+    if cm is None:
+        raise AnalysisError("labrea/collections.py not found")
+    want = {"evaluatable_list": "Iter(*evaluatables).apply(list)", "evaluatable_tuple": "Iter(*evaluatables).apply(tuple)",
+            "evaluatable_set": "Iter(*evaluatables).apply(set)", "evaluatable_dict": "Iter(*pairs).apply(dict)"}
+    for fname, form in want.items():
+        fi = repo.functions.get(f"labrea.collections.{fname}")
+        if fi is None:
+            raise AnalysisError(f"labrea.collections.{fname} not found")
+        rets = [ast.unparse(r.value) for r in astu.walk_no_nested(fi.node) if isinstance(r, ast.Return) and r.value is not None]
+        ok = rets == [form]
+        if fname == "evaluatable_dict" and ok:
+            amap = astu.single_assign_map(fi.node)
+            pv = amap.get("pairs")
+            ok = pv is not None and isinstance(pv, ast.GeneratorExp) and ast.unparse(pv.generators[0].iter) == "contents.items()" \
+                and ast.unparse(pv.elt).endswith("(Value(key), val)")
+        res.add(f"labrea.collections.{fname}:arguments in order through {form.split('.apply')[1]}", ok, cm.relpath, fi.node.lineno, f"{rets}", nec)
+    it_cls = repo.cls("Iter")
+    init = it_cls.methods.get("__init__")
+    ok = init is not None and "self.evaluatables = tuple((Evaluatable.ensure(e) for e in evaluatables))" in ast.unparse(init)
+    res.add("labrea.iterable.Iter.__init__:keeps the arguments in order", ok, it_cls.module.relpath, init.lineno if init else 0, "", nec)
     # Map: keys and values of a combination come from the same mapping, in the same order
     mp = repo.cls("Map")
     fn = mp.methods.get("_iterate_over_options")
@@ -360,6 +390,25 @@ def rule_EO(run: Run) -> RuleResult:
     ok = bool(ps) and all(p.ret.key() == "new:Arguments(star(Val(evaluate,Child(args))),kw:**(Val(evaluate,Child(kwargs))))" for p in ps)
     res.add("labrea.arguments.EvaluatableArguments.evaluate:Arguments(*args, **kwargs) of the evaluated parts", ok, ea.module.relpath, ea.methods["evaluate"].lineno,
             "" if ok else f"{[p.ret.key()[:100] for p in ps]}", nec)
+    va = repo.cls("Value")
+    ps = normal(run.paths(va, "evaluate"))
+    ok = bool(ps) and all(p.ret.key() in ("call:copy.deepcopy(Child(value))", "Child(value)") for p in ps) and any("deepcopy" in p.ret.key() for p in ps)
+    res.add("labrea.types.Value.evaluate:returns (a copy of) the wrapped value", ok, va.module.relpath, va.methods["evaluate"].lineno,
+            f"{[p.ret.key() for p in ps]}", nec)
+    en = repo.cls("Evaluatable")
+    cf = en.methods.get("__call__")
+    ok = cf is not None and [ast.unparse(r.value) for r in ast.walk(cf) if isinstance(r, ast.Return)] == ["self.evaluate(options or {})"]
+    res.add("labrea.types.Evaluatable.__call__:evaluate(options or {})", ok, en.module.relpath, cf.lineno if cf else 0, "", nec)
+    for nm, target in (("apply", "Apply(self, self.ensure(func))"), ("bind", "Bind(self, func)"), ("__rshift__", "self.apply(other)")):
+        mf = en.methods.get(nm)
+        rets = [ast.unparse(r.value) for r in ast.walk(mf) if isinstance(r, ast.Return)] if mf else []
+        res.add(f"labrea.types.Evaluatable.{nm}:builds {target}", rets == [target], en.module.relpath, mf.lineno if mf else 0, f"{rets}", nec)
+    ens = en.methods.get("ensure")
+    if ens is not None:
+        rets = [ast.unparse(r.value) for r in ast.walk(ens) if isinstance(r, ast.Return)]
+        tests = [ast.unparse(n.test) for n in ast.walk(ens) if isinstance(n, ast.If)]
+        res.add("labrea.types.Evaluatable.ensure:evaluatables pass through, plain values are wrapped", sorted(rets) == ["Value(value)", "value"] and tests == ["isinstance(value, Evaluatable)"],
+                en.module.relpath, ens.lineno, f"{tests} -> {rets}", nec)
     co = repo.cls("Computation")
     ps = normal(run.paths(co, "evaluate"))
     ok = bool(ps)
